@@ -204,7 +204,7 @@ int main(int argc, char * argv[], char * envp[])
   catch (const error_count& errors) {
     // used for a "quick" exit, and is used only if help text (such as
     // --help) was displayed
-    status = static_cast<int>(errors.count);
+    status = static_cast<int>(std::min<std::size_t>(errors.count, 255));
   }
 
   // If memory verification is being performed (which can be very slow), clean
